@@ -125,6 +125,9 @@ class Stats:
             nt = res.get("nt", True)
             for c in res.get("cls", ()):
                 self.classes[c] += 1
+            for k, v in (res.get("known") or {}).items():
+                self.known[k] += v["n"]
+                self.known_example.setdefault(k, v["example"])
             if "ratio" in res:
                 self.extra["max_ratio"] = max(self.extra.get("max_ratio", 0.0), float(res["ratio"]))
         if nt:
